@@ -113,7 +113,7 @@ func (w *c13World) checkState(tag string) {
 }
 
 func (w *c13World) step() {
-	w.advance(int64(verif_IntRange(0, 1<<41)))
+	w.advance(int64(verif_IntRange(0, 1<<47)))
 	w.noBoundary()
 	k := c13Keys[verif_Choose(len(c13Keys))]
 	ttl := time.Duration(verif_IntRange(-(1 << 40), 1<<40))
@@ -121,9 +121,13 @@ func (w *c13World) step() {
 	r, s, now := w.ref, w.s, w.now
 	it := r.live(k, now)
 	switch verif_Choose(13) {
-	case 0: // Set
-		err := s.Set(k, v, ttl)
-		r.m[k] = &c13Item{val: v, exp: c13Exp(now, ttl)}
+	case 0: // Set (scalar or list value, as the repositories store both)
+		var val any = v
+		if verif_Bool() {
+			val = []any{v}
+		}
+		err := s.Set(k, val, ttl)
+		r.m[k] = &c13Item{val: val, exp: c13Exp(now, ttl)}
 		verif_Assert("C13.set.ok", err == nil)
 	case 1: // Delete
 		err := s.Delete(k)
@@ -268,7 +272,7 @@ func Harness_C13_sequential() {
 		w.checkState("post")
 	}
 	// let time pass once more: expiry must be observed identically
-	w.advance(int64(verif_IntRange(0, 1<<41)))
+	w.advance(int64(verif_IntRange(0, 1<<47)))
 	w.noBoundary()
 	w.checkState("later")
 	verif_Cover("C13.seq.done")
